@@ -4,7 +4,7 @@ CONSTANTS
   MaxSteps = 6
   MaxW = 16
   FreshOnly = FALSE
-  Ops = {"bin", "un", "slice", "compose", "cond", "ext", "simplify", "pickle", "mapw", "subst", "setsf", "mset", "mget"}
+  Ops = {"bin", "un", "slice", "compose", "cond", "ext", "simplify", "pickle", "mapw", "subst", "mset", "mget"}
   Rand = TRUE
 INIT Init
 NEXT Next
